@@ -27,9 +27,9 @@ def overlap(b, q):
 class Check(CheckBase):
     pid = "C14"
     title = "R-tree intersection = brute force"
-    bounds = {"quick": {"boxes": "N = 0, 1, 2 boxes; all coordinates unbounded symbolic reals with x1<=x2, y1<=y2 (zero-width/height allowed)",
+    bounds = {"quick": {"boxes": "N = 0, 1, 2 boxes; all coordinates unbounded symbolic reals with x1<=x2, y1<=y2 (zero-width/height allowed)", "inductive step": "a single node holding 1..3 symbolic boxes with stub children of arbitrary extent (lemmas A, B); a failed lemma is lifted to an end-to-end counterexample before it is reported",
                         "query": "symbolic box, x1<=x2, y1<=y2"},
-              "thorough": {"boxes": "N <= 3 (N = 3 explored in full)", "query": "as quick"}}
+              "thorough": {"boxes": "end-to-end N <= 2; inductive step on nodes holding up to 4 symbolic boxes", "query": "as quick"}}
     outside = ["N above the bound", "binary64 rounding of the mean centre (floats are modelled as exact reals)", "non-finite coordinates",
                "query boxes with min > max"]
     stubs = ["min/max: If-terms (no fork); math.inf handled concretely"]
@@ -39,8 +39,15 @@ class Check(CheckBase):
         return loader.encoded("rtree", ["__init__", "intersection"])
 
     def cases(self, tier):
-        ns = [0, 1, 2] if tier == "quick" else [0, 1, 2, 3]
-        return [{"label": "N%d" % n, "n": n, "split_depth": 10 if n >= 2 else None} for n in ns]
+        ns = [0, 1, 2]
+        cs = [{"label": "N%d" % n, "n": n, "split_depth": 10 if n >= 2 else None} for n in ns]
+        ks = (1, 2, 3) if tier == "quick" else (1, 2, 3, 4)
+        for k in ks:
+            cs.append({"label": "step/A/N%d" % k, "n": k, "step": "A", "split_depth": 8 if k >= 3 else None})
+        for c in (1, 2):
+            cs.append({"label": "step/B/children/N%d" % c, "n": c, "step": "Bc"})
+            cs.append({"label": "step/B/leaf/N%d" % c, "n": c, "step": "Bl"})
+        return cs
 
     def config(self, tier, case):
         return engine.Config(logic="QF_LRA", max_decisions=2000)
@@ -49,6 +56,8 @@ class Check(CheckBase):
         return ["leaf", "split", "hit", "miss"]
 
     def harness(self, run, case):
+        if case.get("step"):
+            return self.harness_step(run, case)
         rt = load()
         n = case["n"]
         boxes = []
@@ -73,12 +82,141 @@ class Check(CheckBase):
             else:
                 run.reach("miss")
                 run.prove("intersecting-id-not-missed", z3.Not(overlap(bt, qt)), info={"id": i})
-        extra = [i for i in res if i not in range(n)]
+        extra = [i for i in res if i not in range(len(boxes))]
         if extra:
             run.prove("no-unknown-ids", z3.BoolVal(False), info={"ids": extra})
 
-    def replay(self, cex):
+    def harness_step(self, run, case):
+        """Inductive step lemmas on a single node (child nodes are stubs).
+        (A) construction of a node from n symbolic boxes: extent = bounding box of the boxes; a leaf keeps all boxes; a
+            node that splits keeps none itself, hands every box to at least one child, hands children only its own
+            boxes, and every child list is strictly shorter (termination).
+        (B) query on a node: a child is visited exactly when its (arbitrary, symbolic) extent overlaps the query box
+            and its answer is included; a leaf reports exactly the overlapping boxes.
+        A + B give 'result = brute force' for trees of any size by induction on the height (paper argument, DESIGN.md
+        C14).  A failed lemma is 'soft': it is lifted to an end-to-end counterexample before anything is reported."""
+        rt = load()
+        Real = rt.Index
+        n = case["n"]
+        made = []
+
+        class Stub:
+            bboxes, subtrees = [], []
+
+            def __init__(self, sub, symbolic_extent=False):
+                self.sub = list(sub)
+                k = len(made)
+                if symbolic_extent:
+                    self.xmin, self.ymin, self.xmax, self.ymax = (run.real("child%d_%s" % (k, c)) for c in ("xmin", "ymin", "xmax", "ymax"))
+                else:
+                    self.xmin = self.ymin = self.xmax = self.ymax = 0
+                self.k = k
+                self.visited = False
+                made.append(self)
+
+            def intersection(self, bbox):
+                self.visited = True
+                return {("child", self.k)}
+        q = None
+        if case["step"] != "A":
+            q = [run.real("q_%s" % k) for k in ("x1", "y1", "x2", "y2")]
+            run.assume(q[0] <= q[2])
+            run.assume(q[1] <= q[3])
+        boxes = []
+        if case["step"] in ("A", "Bl"):
+            for i in range(n):
+                b = [run.real("b%d_%s" % (i, k)) for k in ("x1", "y1", "x2", "y2")]
+                run.assume(b[0] <= b[2])
+                run.assume(b[1] <= b[3])
+                boxes.append((i, tuple(b)))
+        if case["step"] == "A":
+            rt.Index = Stub
+            node = Real(list(boxes))
+            run.reach("split" if made else "leaf")
+            bt = [[c.t for c in b] for _i, b in boxes]
+            from pysx.values import zreal
+            for attr, idx_, fn in (("xmin", 0, "min"), ("ymin", 1, "min"), ("xmax", 2, "max"), ("ymax", 3, "max")):
+                vals = [b[idx_] for b in bt]
+                m = vals[0]
+                for v in vals[1:]:
+                    m = z3.If(v < m, v, m) if fn == "min" else z3.If(v > m, v, m)
+                run.prove("step:extent-is-bounding-box", zreal(getattr(node, attr)) == m, info={"side": attr}, soft=True)
+            ids = [i for i, _b in boxes]
+            if made:
+                subids = [[e[0] for e in st.sub] for st in made]
+                ok_sub = all(all(e in ids for e in sl) and len(set(sl)) == len(sl) for sl in subids)
+                same = all(all(all(x is y for x, y in zip(e[1], boxes[e[0]][1])) for e in st.sub) for st in made) if ok_sub else False
+                covered = all(any(i in sl for sl in subids) for i in ids)
+                shorter = all(len(sl) < len(ids) for sl in subids)
+                run.prove("step:children-hold-only-boxes-of-the-node", z3.BoolVal(bool(ok_sub and same)), soft=True)
+                run.prove("step:every-box-handed-to-at-least-one-child", z3.BoolVal(bool(covered)), soft=True, info={"children": subids})
+                run.prove("step:children-strictly-shorter (termination)", z3.BoolVal(bool(shorter)), soft=True)
+                run.prove("step:split-node-keeps-no-boxes-itself", z3.BoolVal(len(node.bboxes) == 0), soft=True)
+            else:
+                kept = [e[0] for e in node.bboxes] == ids
+                run.prove("step:leaf-keeps-all-boxes", z3.BoolVal(bool(kept)), soft=True)
+            return
+        node = object.__new__(Real)
+        qt = [c.t for c in q]
+        if case["step"] == "Bc":
+            node.bboxes = []
+            node.subtrees = [Stub([], symbolic_extent=True) for _ in range(n)]
+            res = node.intersection(tuple(q))
+            run.reach("split")
+            for st in made:
+                ext = [st.xmin.t, st.ymin.t, st.xmax.t, st.ymax.t]
+                run.prove("step:child-visited-iff-extent-overlaps-query", z3.BoolVal(st.visited) == overlap(ext, qt), info={"child": st.k}, soft=True)
+                run.prove("step:visited-child-answer-included", z3.BoolVal((("child", st.k) in res) == st.visited), soft=True)
+            run.prove("step:nothing-else-returned", z3.BoolVal(all(isinstance(x, tuple) for x in res)), soft=True)
+            return
+        node.bboxes = list(boxes)
+        node.subtrees = []
+        res = node.intersection(tuple(q))
+        run.reach("leaf")
+        for i, b in boxes:
+            run.reach("hit" if i in res else "miss")
+            run.prove("step:leaf-hit-iff-overlap", z3.BoolVal(i in res) == overlap([c.t for c in b], qt), info={"id": i}, soft=True)
+
+    def lift(self, cex):
+        """A failed step lemma is not itself a violation of the property: try to lift it to an end-to-end
+        counterexample (brute-force mismatch of the real Index) built from the model's boxes, optional far-away
+        boxes, all list orders and probing queries."""
         rt = loader.native("rtree")
+        i = cex["inputs"]
+        n = int(cex["case"].split("N")[1])
+        base = [tuple(Fraction(i["b%d_%s" % (k, c)]) for c in ("x1", "y1", "x2", "y2")) for k in range(n) if "b%d_x1" % k in i]
+        if not base:
+            # lemma B on stub children: use the children's extents as boxes
+            base = [tuple(Fraction(i["child%d_%s" % (k, c)]) for c in ("xmin", "ymin", "xmax", "ymax")) for k in range(n) if "child%d_xmin" % k in i]
+            base = [b for b in base if b[0] <= b[2] and b[1] <= b[3]]
+        fars = [[], [(100, 100, 101, 101)], [(-100, -100, -99, -99)], [(100, -100, 101, -99)], [(-100, 100, -99, 101)],
+                [(100, 100, 101, 101), (-100, -100, -99, -99)]]
+        queries = []
+        for b in base:
+            queries += [b, (b[0], b[1], b[0], b[1]), (b[2], b[3], b[2], b[3]), (b[0], b[3], b[0], b[3]), (b[2], b[1], b[2], b[1])]
+        if "q_x1" in i:
+            queries.append(tuple(Fraction(i["q_%s" % c]) for c in ("x1", "y1", "x2", "y2")))
+        for far in fars:
+            allb = base + [tuple(Fraction(c) for c in f) for f in far]
+            for perm in itertools.permutations(range(len(allb))):
+                boxes = [(k, allb[k]) for k in perm]
+                try:
+                    idx = rt.Index(list(boxes))
+                except RecursionError:
+                    return {"boxes": [[str(c) for c in b] for _k, b in boxes], "construction": "does not terminate (RecursionError)"}
+                for qy in queries:
+                    got = idx.intersection(qy)
+                    exp = {k for k, b in boxes if b[0] <= qy[2] and qy[0] <= b[2] and b[1] <= qy[3] and qy[1] <= b[3]}
+                    if got != exp:
+                        return {"lifted_from_step_lemma": cex["obligation"], "boxes": [[k] + [str(c) for c in b] for k, b in boxes],
+                                "query": [str(c) for c in qy], "returned": sorted(got), "brute_force": sorted(exp)}
+        return None
+
+    def replay(self, cex):
+        if cex["case"].startswith("step/"):
+            return self.lift(cex)
+        rt = loader.native("rtree")
+
         n = int(cex["case"][1:])
         i = cex["inputs"]
         boxes = [(k, tuple(Fraction(i["b%d_%s" % (k, c)]) for c in ("x1", "y1", "x2", "y2"))) for k in range(n)]
